@@ -36,6 +36,7 @@ def units(tier):
     u = [("ddm_vs_dD", "tric2", "211"), ("ddm_vs_dD", "bccI", "111"), ("c_vs_py", "tric2", "211"), ("c_vs_py", "hex2", "111"), ("c_vs_py", "bccI", "111"),
          ("wang_c_vs_py", "tric2", "211"),
          ("gv", "tric2", "211", False), ("gv", "tric2", "211", True), ("gv", "hex2", "211", True), ("gv", "mono2", "211", True), ("gv", "tet2", "211", True),
+         ("gv_fd", "hex2", "211"), ("gv_fd", "mono2", "211"), ("gv_fd", "tric2", "211"),
          ("gruneisen", "tric2", "211", "general"), ("gruneisen", "tric2", "211", "scaling"), ("gruneisen", "hex2", "211", "general"), ("gruneisen", "tric2", "211", "band")]
     if tier == "thorough":
         u += [("ddm_vs_dD", "hex2", "211"), ("ddm_vs_dD", "tric2", "nd4"), ("c_vs_py", "mono2", "nd1"), ("wang_c_vs_py", "hex2", "211"),
@@ -415,6 +416,64 @@ def replay_gru(u, m, syms, plus, minus, qs):
     return worst > 1e-8, "mode Grueneisen parameters differ by %.3g from -(V0/2 lambda) <e|D+ - D-|e>/(V+ - V-) (%s/%s, %s)" % (worst, gid, sid, variant)
 
 
+def gv_fd_unit(u, res):
+    """finite-difference variant of dD/dq (GroupVelocity(q_length=...), also what Gonze-Lee NAC always uses): the real _get_dD_FD is run
+    in E2 with *symbolic force constants* (D(q +- dq) through the kernel IR) and compared with the analytic derivative matrices of the
+    same symbolic force constants (ddm kernel, itself tied to the derivative of D by ddm_vs_dD): for all force constants the two agree
+    to O(q_length^2) - the central difference of a function that is trigonometric in q."""
+    ctx = harness.setup()
+    _, gid, sid = u
+    from phonopy.phonon.group_velocity import GroupVelocity
+    from phonopy.harmonic.derivative_dynmat import DerivativeOfDynamicalMatrix
+    case = DMCase(gid, sid)
+    xs, fc = case.sym_full_fc()
+    A = box(xs)
+    q = np.array(GV_Q.get(gid, [0.13, 0.21, 0.34]), dtype=float) + np.array([0.03, 0.05, 0.07])
+    ql = 1e-4
+    br = bridge.Bridge(ctx.shim, ctx.ir); br.install()
+    try:
+        with symnp.session():
+            dm = case.dm
+            dm._force_constants = fc
+            gv_fd = GroupVelocity(dm, q_length=ql, symmetry=None, frequency_factor_to_THz=1.0)
+            fd = gv_fd._get_dD(q)                       # (4, n, n): [generic direction, x, y, z]
+            ddm = DerivativeOfDynamicalMatrix(dm)
+            ddm.run(q)
+            ana = ddm.d_dynamical_matrix                # (3, n, n) Cartesian
+    finally:
+        br.uninstall()
+    res.add_functions(br.functions); res.stat("ir_steps", br.steps)
+    key = "%s:gv_fd:%s/%s" % (PID, gid, sid)
+    lhs = []; rhs = []
+    for a in range(3):
+        lhs += cflat(fd[a + 1]); rhs += cflat(ana[a])
+    v, m, idx = assert_equal(res, "finite-difference dD/dq (q_length=%g) == analytic dD/dq for all force constants, within 1e-5 [%s/%s]" % (ql, gid, sid), lhs, rhs, A, tol=1e-5, chunk=12)
+    if v == "sat":
+        ok, what = replay_gv_fd(gid, sid, harness.model_floats(m, xs), q, ql)
+        (res.violations if ok else res.unconfirmed).append({"key": key, "what": what, "replay": {"unit": [str(x) for x in u], "q": q.tolist()}})
+    elif v == "unknown":
+        res.notes.append("inconclusive " + key)
+    v2, _, _ = assert_equal(Result("t"), "twin", lhs[:12], [t * Fraction(3, 2) if isinstance(t, z3.ExprRef) else t for t in rhs[:12]], A, tol=1e-5, chunk=12)
+    res.twins.append({"name": "gv_fd twin (factor 1.5) refutable", "verdict": v2})
+    res.samples.append({"unit": res.unit, "symbols": len(xs), "q": q.tolist(), "q_length": ql})
+    return res
+
+
+@symnp.outside_session
+def replay_gv_fd(gid, sid, x, q, ql):
+    from phonopy.phonon.group_velocity import GroupVelocity
+    from phonopy.harmonic.derivative_dynmat import DerivativeOfDynamicalMatrix
+    ph = geometries.phonopy_obj(gid, sid)
+    n = len(ph.supercell)
+    ph.force_constants = np.array(x, dtype="double").reshape(n, n, 3, 3)
+    dm = ph.dynamical_matrix
+    g = GroupVelocity(dm, q_length=ql, symmetry=None, frequency_factor_to_THz=1.0)
+    fd = g._get_dD(np.array(q, dtype=float))
+    d = DerivativeOfDynamicalMatrix(dm); d.run(np.array(q, dtype=float)); ana = d.d_dynamical_matrix
+    dev = float(max(np.abs(fd[a + 1] - ana[a]).max() for a in range(3)))
+    return dev > 1e-5, "finite-difference derivative of the dynamical matrix (q_length=%g) differs from the analytic one by %.3g at q=%s on %s/%s" % (ql, dev, np.round(q, 4).tolist(), gid, sid)
+
+
 def run_unit(u):
     res = Result("/".join(str(x) for x in u))
     ctx = harness.setup()
@@ -422,6 +481,8 @@ def run_unit(u):
         return gv_unit(u, res)
     if u[0] == "gruneisen":
         return gru_unit(u, res)
+    if u[0] == "gv_fd":
+        return gv_fd_unit(u, res)
     kind, gid, sid = u
     rng = np.random.default_rng(21)
     nac = None
